@@ -202,7 +202,7 @@ func vfC06XGot(v any) []string {
 }
 
 func vfC06CrossDecoder(r *vkit.Run) {
-	r.Rule("second-decoder family: every corpus file (same directories; at most 4 MiB; not a deliberately damaged or multi-file member) that the independent decoder h5ref decodes without error or deviation is read (objects and attributes that use a feature the decoder does not implement carry a note and are not compared) with the library's reader; object kinds, dataset values (Read, ReadStrings), attribute name sets and attribute values (4/8-byte integers and floats, fixed strings, variable-length strings) that the reader returns without error must equal the decoder's; every compared dataset and attribute is a case")
+	r.Rule("second-decoder family: every corpus file (same directories; at most 4 MiB; not a deliberately damaged or multi-file member) that the independent decoder h5ref decodes without error or deviation is read (objects and attributes that use a feature the decoder does not implement carry a note and are not compared) with the library's reader; object kinds, dataset values (Read, ReadStrings), attribute name sets and attribute values (4/8-byte integers and floats, fixed strings, variable-length strings) that the reader returns without error must equal the decoder's, and a dataset whose values live in external files that are not shipped must not read as values; every compared dataset and attribute is a case")
 	var files []string
 	seen := map[string]bool{}
 	for _, pat := range []string{"testdata/hdf5_official/*", "testdata/reference/*", "testdata/c-library-corpus/*", "testdata/c-library-corpus/*/*", "testdata/*"} {
@@ -290,6 +290,15 @@ func vfC06CrossDecoder(r *vkit.Run) {
 				continue
 			}
 			if lo.kind == "dataset" {
+				// element values that live in other files (External Data Files message): the files
+				// are not shipped, so whatever a read returns without error is not what the
+				// reference library reports
+				if ro.Layout == "external" && (lo.readOK && len(lo.read) > 0 || lo.strsOK && len(lo.strs) > 0) {
+					r.Case(fr.name + "|" + p + "|external-storage")
+					detail["values_returned"] = len(lo.read) + len(lo.strs)
+					r.Fail("second-decoder/external-storage-read-as-values|"+filepath.Base(fr.name)+"|"+p, detail)
+					continue
+				}
 				if lo.readOK {
 					if want, ok := vfC05RawToFloat(ro); ok {
 						r.Case(fr.name+"|"+p+"|read")
